@@ -692,11 +692,12 @@ pub fn generate(seed: u64) -> Workload {
 
 pub fn minimise(
     w: &Workload,
-    class: &str,
+    original: &Failure,
     sched: Sched,
     sched_seed: u64,
     iterations: usize,
 ) -> (Workload, Failure) {
+    let class = original.class.as_str();
     let test = |c: &Workload| -> Option<Failure> {
         if c.threads.is_empty() || c.spec.patterns.is_empty() {
             return None;
@@ -704,7 +705,11 @@ pub fn minimise(
         explore(c, sched, sched_seed, iterations).failure.filter(|f| f.class == class)
     };
     let mut cur = w.clone();
-    let mut cur_f = test(&cur).expect("harness: minimise called on a workload that does not fail");
+    // A failure that depends on something outside the simulation (real time, other OS threads)
+    // may not come back on re-exploration: then the original stays as it is.
+    let Some(mut cur_f) = test(&cur) else {
+        return (w.clone(), original.clone());
+    };
     for _round in 0..3 {
         let before = workload_hash(&cur);
         // drop whole threads
@@ -1007,10 +1012,13 @@ pub fn lockstep_hash(l: &Lockstep) -> u64 {
     h.finish()
 }
 
-pub fn lockstep_minimise(ls: &Lockstep, class: &str, sched: Sched, seed: u64, iterations: usize) -> (Lockstep, Failure) {
+pub fn lockstep_minimise(ls: &Lockstep, original: &Failure, sched: Sched, seed: u64, iterations: usize) -> (Lockstep, Failure) {
+    let class = original.class.as_str();
     let test = |c: &Lockstep| lockstep_explore(c, sched, seed, iterations).failure.filter(|f| f.class == class);
     let mut cur = ls.clone();
-    let mut cur_f = test(&cur).expect("harness: lockstep minimise called on a passing scenario");
+    let Some(mut cur_f) = test(&cur) else {
+        return (ls.clone(), original.clone());
+    };
     loop {
         let before = lockstep_hash(&cur);
         let mut i = 0;
